@@ -168,7 +168,7 @@ Definition P_graffiti (g : list N) (ps : list node_client) (o : outcome (list (l
 (* path 4 *)
 
 Definition doc_rejectable (d : doc) : bool :=
-  match d with DUnavailable | DMalformed | DVersion _ => true | _ => false end.
+  match d with DUnavailable | DMalformed | DVersion _ | DBare _ => true | _ => false end.
 
 Definition lookups_eqb := list_eqb (prod_eqb N.eqb N.eqb).
 Definition outs_eqb :=
